@@ -59,16 +59,16 @@ var props = []prop{
 	{ID: "C04", Level: "fault_enumeration", Shards: 16},
 	{ID: "C05", Level: "exploration", Shards: 16},
 	{ID: "C06", Level: "model_checking", Shards: 16},
-	{ID: "C07", Level: "model_checking", Overlay: true, Shards: 16},
-	{ID: "C08", Level: "model_checking", Overlay: true, Shards: 16},
+	{ID: "C07", Level: "model_checking", Overlay: true, Shards: 16, QuickBudget: 45, ThoroughBudget: 900},
+	{ID: "C08", Level: "model_checking", Overlay: true, Shards: 16, QuickBudget: 45, ThoroughBudget: 900},
 	{ID: "C09", Level: "model_checking", Overlay: true, Shards: 16},
 	{ID: "C10", Level: "exploration", Shards: 16},
 	{ID: "C11", Level: "exploration", Shards: 16},
 	{ID: "C12", Level: "exploration", Shards: 16},
 	{ID: "C13", Level: "exploration", Shards: 16},
-	{ID: "C14", Level: "model_checking", Overlay: true, Shards: 16},
-	{ID: "C15", Level: "model_checking", Overlay: true, Shards: 16},
-	{ID: "C16", Level: "model_checking", Overlay: true, Shards: 16},
+	{ID: "C14", Level: "model_checking", Overlay: true, Shards: 16, QuickBudget: 45, ThoroughBudget: 900},
+	{ID: "C15", Level: "model_checking", Overlay: true, Shards: 16, QuickBudget: 45, ThoroughBudget: 900},
+	{ID: "C16", Level: "model_checking", Overlay: true, Shards: 16, QuickBudget: 45, ThoroughBudget: 900},
 	{ID: "C17", Level: "exploration", Shards: 16},
 	{ID: "C18", Level: "exploration", Shards: 16},
 	{ID: "C19", Level: "exploration", Shards: 16},
